@@ -342,7 +342,7 @@ func writePack(repo repository.ClockedRepo, p *packSpec, parents []repository.Ha
 	}
 	th, err := repo.StoreTree(tree)
 	hx.Must(err)
-	c, err := repo.StoreCommit(th, parents...)
+	c, err := hx.CommitOnce(repo, th, parents...)
 	hx.Must(err)
 	return c
 }
@@ -670,7 +670,7 @@ func writeVersions(repo repository.ClockedRepo, chain []*verSpec, head int) repo
 		if v.foreign {
 			c = foreignCommit(repo, th, parents)
 		} else {
-			c, err = repo.StoreCommit(th, parents...)
+			c, err = hx.CommitOnce(repo, th, parents...)
 			hx.Must(err)
 		}
 		done[i] = c
